@@ -181,6 +181,111 @@ class SimDict(SimProxyBase):
         return iter(self.keys())
 
 
+class SimLock(SimProxyBase):
+    def __init__(self, env, reentrant=False):
+        self.env, self.reentrant = env, reentrant
+        self.owner = None
+        self.depth = 0
+
+    def acquire(self, blocking=True, timeout=None):
+        sim = self.env.sim
+        me = sim.current.tid
+        if self.reentrant and self.owner == me:
+            self.depth += 1
+            return True
+        if self.owner is not None and not blocking:
+            return False
+        sim.seam('lock.acquire', cond=lambda: self.owner is None)
+        self.owner = me
+        self.depth = 1
+        return True
+
+    def release(self):
+        self.depth -= 1
+        if self.depth <= 0:
+            self.owner = None
+            self.depth = 0
+        self.env.sim.seam('lock.release')
+
+    def __enter__(self):
+        self.acquire()
+        return self
+
+    def __exit__(self, *a):
+        self.release()
+        return False
+
+
+class SimEvent(SimProxyBase):
+    def __init__(self, env):
+        self.env = env
+        self.flag = False
+
+    def set(self):
+        self.env.sim.seam('event.set')
+        self.flag = True
+
+    def clear(self):
+        self.env.sim.seam('event.clear')
+        self.flag = False
+
+    def is_set(self):
+        self.env.sim.seam('event.is_set')
+        return self.flag
+
+    def wait(self, timeout=None):
+        if timeout is not None and not self.flag:
+            self.env.sim.seam('event.wait(timeout)', cost=float(timeout))
+            return self.flag
+        self.env.sim.seam('event.wait', cond=lambda: self.flag or self.env.manager_closed)
+        return self.flag
+
+
+class SimValue(SimProxyBase):
+    def __init__(self, env, typecode, value=0, lock=True):
+        object.__setattr__(self, 'env', env)
+        object.__setattr__(self, '_v', value)
+        object.__setattr__(self, '_lock', SimLock(env, True))
+
+    def _get(self):
+        self.env.sim.seam('value.get')
+        return self._v
+
+    def _set(self, v):
+        self.env.sim.seam('value.set')
+        object.__setattr__(self, '_v', v)
+    value = property(_get, _set)
+
+    def get(self):
+        return self._get()
+
+    def set(self, v):
+        self._set(v)
+
+    def get_lock(self):
+        return self._lock
+
+
+class SimNamespace(SimProxyBase):
+    def __init__(self, env):
+        object.__setattr__(self, 'env', env)
+        object.__setattr__(self, '_d', {})
+
+    def __getattr__(self, k):
+        if k.startswith('_'):
+            raise AttributeError(k)
+        self.env.sim.seam('namespace.get')
+        try:
+            return pickle.loads(self._d[k])
+        except KeyError:
+            raise AttributeError(k)
+
+    def __setattr__(self, k, v):
+        d = pickle.dumps(v, protocol=pickle.HIGHEST_PROTOCOL)
+        self.env.sim.seam('namespace.set')
+        self._d[k] = d
+
+
 class SimManager:
     def __init__(self, env):
         self.env = env
@@ -216,8 +321,26 @@ class SimManager:
         self.env.lists.append(l)
         return l
 
-    def dict(self):
-        return SimDict(self.env)
+    def dict(self, *a, **k):
+        d = SimDict(self.env)
+        for kk, vv in dict(*a, **k).items():
+            d.data[kk] = pickle.dumps(vv, protocol=pickle.HIGHEST_PROTOCOL)
+        return d
+
+    def Value(self, typecode, value=0, lock=True):
+        return SimValue(self.env, typecode, value)
+
+    def Lock(self):
+        return SimLock(self.env)
+
+    def RLock(self):
+        return SimLock(self.env, True)
+
+    def Event(self):
+        return SimEvent(self.env)
+
+    def Namespace(self):
+        return SimNamespace(self.env)
 
 
 class SimProcess:
@@ -523,8 +646,34 @@ class Env:
         repl['Pool'] = lambda *a, **k: SimPool(self, *a, **k)
         repl['Queue'] = lambda maxsize=0, **k: self._reg_queue(SimQueue(plain, maxsize))
         repl['SimpleQueue'] = lambda **k: self._reg_queue(SimQueue(plain, 0))
-        for name in ('JoinableQueue', 'Pipe', 'Lock', 'Value', 'Array', 'get_context', 'Event', 'Semaphore', 'Barrier'):
+        repl['Lock'] = lambda: SimLock(plain)
+        repl['RLock'] = lambda: SimLock(plain, True)
+        repl['Event'] = lambda: SimEvent(plain)
+        repl['Value'] = lambda typecode, value=0, lock=True: SimValue(plain, typecode, value)
+        repl['active_children'] = lambda: [p for p in self.procs if p.is_alive()]
+
+        def _current_process():
+            import types
+            t = self.sim.current
+            if t is None:
+                return self._saved['current_process']()
+            return types.SimpleNamespace(name='MainProcess' if t.tid == 0 else t.name, pid=40000 + t.tid, _identity=() if t.tid == 0 else (t.tid,),
+                                         daemon=False, exitcode=None, ident=40000 + t.tid)
+        repl['current_process'] = _current_process
+        for name in ('JoinableQueue', 'Pipe', 'Array', 'get_context', 'Semaphore', 'Barrier'):
             repl[name] = self._unsimulated(name)
+        # sleeping inside a simulated process passes simulated time and is a pre-emption point
+        import time as _time
+        self._real_sleep = _time.sleep
+
+        def _sleep(d):
+            sim = self.sim
+            import threading
+            if sim.current is not None and threading.current_thread() is sim.current.thread:
+                sim.seam('sleep', cost=max(float(d), 0.0))
+            else:
+                self._real_sleep(d)
+        _time.sleep = _sleep
         for k, v in repl.items():
             self._saved[k] = getattr(mpm, k)
             setattr(mpm, k, v)
@@ -533,4 +682,6 @@ class Env:
     def __exit__(self, *a):
         for k, v in self._saved.items():
             setattr(multiprocessing, k, v)
+        import time as _time
+        _time.sleep = self._real_sleep
         return False
